@@ -58,6 +58,21 @@ class FrontierCheck(E2ECheck):
         for idx in range(spec["count"]):
             rng = random.Random(seed_int("c18w", spec["seed"], spec["shard"], idx))
             shape, nodes, blocks = worldgen.gen_graph(rng, "G", max_nodes=7)
+            if rng.random() < 0.3:
+                # a join reached along paths of different lengths, with descendants: R -> J, R -> S (-> V) -> J, J -> K (-> L)
+                shape = "skip_join"
+                mid = ["S", "V"][:rng.randint(1, 2)]
+                nodes = [{"name": "R", "children": ["J", mid[0]]}]
+                for a, b in zip(mid, mid[1:] + ["J"]):
+                    nodes.append({"name": a, "children": [b]})
+                tail = ["K", "L"][:rng.randint(1, 2)]
+                nodes.append({"name": "J", "children": [tail[0]]})
+                for a, b in zip(tail, tail[1:] + [None]):
+                    nodes.append({"name": a, "children": [b] if b else []})
+                if rng.random() < 0.4:
+                    nodes[0]["children"].append("X")
+                    nodes.append({"name": "X", "children": [tail[-1]]})
+                blocks = []
             jobs, tasks = {}, {}
             for n in nodes:
                 sts = [wl.ExecutionStrategy(resources=wl.Resources(_logger=lg), batch_size=1,
@@ -123,6 +138,19 @@ class FrontierCheck(E2ECheck):
                                         okp = any(fin) if jobs[name].terminal else all(fin)
                                         if not okp and not _anc_zero(name):
                                             bad("offered_before_parents_done", f"t={now} {pol.name} retract={retract}: {name} VIRTUAL, parents complete={list(zip(par[name], fin))}")
+                                # any lookahead, any history: a VIRTUAL task can be offered only if its earliest possible release
+                                # (every unfinished ancestor taking its fastest strategy, starting as early as its state allows)
+                                # lies within now + lookahead.  A necessary condition only, hence safe for every switch but
+                                # release_taskgraphs, which offers whole graphs on purpose.
+                                if not rtg:
+                                    for name in got:
+                                        if tasks[name].state.name != "VIRTUAL":
+                                            continue
+                                        bump("walker_earliest_release_checks")
+                                        lb = _earliest_release(name)
+                                        if lb > now + la:
+                                            bad("offered_beyond_lookahead", f"t={now} la={la} retract={retract} {pol.name}: {name} VIRTUAL offered, but it cannot be "
+                                                f"released before {lb} even if every ancestor takes its fastest strategy")
                 random.setstate(state)
                 for (pol, retract, rtg, la), got in offers.items():
                     for la2 in (2, 7, 1000):
@@ -130,6 +158,32 @@ class FrontierCheck(E2ECheck):
                             bad("lookahead_not_monotone", f"t={now} {pol} retract={retract} rtg={rtg}: {sorted(got - offers[(pol, retract, rtg, la2)])} offered at {la} but not at {la2}")
                     if not rtg and (pol, retract, True, la) in offers and got - offers[(pol, retract, True, la)]:
                         bad("release_taskgraphs_not_monotone", f"t={now} {pol} retract={retract} la={la}: {sorted(got - offers[(pol, retract, True, la)])}")
+
+            INF = 10 ** 9
+
+            def _fastest(p):
+                return min(st.runtime.time for st in tasks[p].available_execution_strategies)
+
+            def _earliest_finish(p, seen=frozenset()):
+                tp = tasks[p]
+                st = tp.state.name
+                if st == "COMPLETED":
+                    return tp.completion_time.time
+                if st == "CANCELLED" or p in seen:
+                    return INF
+                if st == "RUNNING":
+                    return now + min(tp.remaining_time.time, _fastest(p))
+                if st == "SCHEDULED":
+                    return now + min(tp.remaining_time.time, _fastest(p))
+                if st == "RELEASED":
+                    return max(now, tp.release_time.time) + _fastest(p)
+                return max(now, _earliest_release(p, seen | {p})) + _fastest(p)
+
+            def _earliest_release(name, seen=frozenset()):
+                fs = [_earliest_finish(p, seen) for p in par[name]]
+                if not fs:
+                    return max(0, tasks[name].release_time.time)
+                return min(fs) if jobs[name].terminal else max(fs)
 
             def _expected_finish(p):
                 tp = tasks[p]
@@ -179,7 +233,10 @@ class FrontierCheck(E2ECheck):
                         if (any(fin) if jobs[name].terminal else all(fin)) or not par[name]:
                             if t.release_time.time >= 0 and t.expected_start_time.time <= now + 3:
                                 cands.append(("start", name))
-                        cands.append(("unschedule", name))
+                        # a precedence-respecting planner that retracts a task also retracts what it planned after it
+                        kids = [c for c in tasks if name in par[c]]
+                        if not any(tasks[c].state.name == "SCHEDULED" for c in kids):
+                            cands.append(("unschedule", name))
                     if st == "RUNNING":
                         cands.append(("finish", name))
                     if st in ("RELEASED", "VIRTUAL", "SCHEDULED") and rng.random() < 0.15:
